@@ -300,12 +300,8 @@ class SFTPClient(BaseSFTP, ClosingContextManager):
                 # Exit the loop when we've reached the end of the directory
                 # handle
                 for num in nums:
-                    t, pkt_data = self._read_packet()
-                    msg = Message(pkt_data)
-                    new_num = msg.get_int()
-                    if num == new_num:
-                        if t == CMD_STATUS:
-                            self._convert_status(msg)
+                    # (raises EOFError once the server reports end of folder)
+                    t, msg = self._read_response(num)
                     count = msg.get_int()
                     for i in range(count):
                         filename = msg.get_text()
